@@ -156,6 +156,8 @@ class ContractDB:
         """Build a fresh symbolic value from a sort spec (string mini-language or callable)."""
         if callable(spec):
             return spec(Maker(ex, st, self), base)
+        if not isinstance(spec, str):
+            return spec  # a concrete value
         spec = spec.strip()
         if spec.startswith("dict[") and spec.endswith("]"):
             k, v = bm_split(spec[5:-1])
@@ -347,11 +349,16 @@ def _sb_unmodified(ex, st, args, kwargs):
     hit = False
     for ev in st.trace:
         if ev[0] == "mutate":
-            r = bm.values_equal(ex, st, ev[1], o)
-            if r is True:
+            m = ev[1]
+            if isinstance(m, Opaque) and isinstance(o, Opaque):
+                if m.kind != o.kind:
+                    continue  # objects of different abstract kinds are different objects
+                if m.t.eq(o.t):
+                    hit = True
+                else:
+                    raise Unsupported("unmodified(): two abstract objects of the same kind may alias")
+            elif m == o:
                 hit = True
-            elif r is not False:
-                raise Unsupported("unmodified(): aliasing of opaque objects is symbolic")
     yield st, not hit
 
 
@@ -606,7 +613,35 @@ def _quant(is_forall):
 
 
 def _sf_ite(ex, st, node):
+    """ite(c, a, b): a single If-term when both arms are scalars of one sort, else a fork."""
     c, a, b = node.args
+    if ex.spec_mode:
+        try:
+            cf = ex.merge_bool(c, st)
+            sa = st.fork()
+            sa.pc.append(cf)
+            sb = st.fork()
+            sb.pc.append(z3.Not(cf))
+            ra = [(s1, v) for s1, v in ex.ev(a, sa)]
+            rb = [(s1, v) for s1, v in ex.ev(b, sb)]
+            if len(ra) == 1 and len(rb) == 1 and not isinstance(ra[0][1], Exc) and not isinstance(rb[0][1], Exc):
+                va, vb = ra[0][1], rb[0][1]
+                if len(ra[0][0].pc) == len(sa.pc) and len(rb[0][0].pc) == len(sb.pc):
+                    so = None
+                    na, nb = natural_sort(va), natural_sort(vb)
+                    if na is not None and na == nb:
+                        so = na
+                    elif {na, nb} <= {"int", "bool"} and None not in (na, nb):
+                        so = "int"
+                    elif va is None and isinstance(nb, (str, tuple)) and nb is not None:
+                        so = nb if (isinstance(nb, tuple) and nb[0] == "opt") else ("opt", nb)
+                    elif vb is None and na is not None:
+                        so = na if (isinstance(na, tuple) and na[0] == "opt") else ("opt", na)
+                    if so is not None and not (isinstance(so, tuple) and so[0] == "u"):
+                        yield st, SV(so, z3.If(cf, lift(va, so), lift(vb, so)))
+                        return
+        except (Unsupported, TypeError):
+            pass
     for st1, vc in ex.ev(c, st):
         for st2, bc in ex.branch(st1, ex.truthy(st1, vc)):
             yield from ex.ev(a if bc else b, st2)
@@ -711,12 +746,19 @@ def _same_val(x, y):
         return False
 
 
-def _heap_changed(before, st, allowed):
+def _heap_changed(before, st, allowed, havocked_fields=None):
     """Addresses of pre-existing heap objects whose content differs (loop frame check)."""
     out = []
+    havocked_fields = havocked_fields or {}
     for a, o in before.items():
         n = st.heap.get(a)
         if n is None or a in allowed:
+            continue
+        if isinstance(o, Obj) and a in havocked_fields:
+            skip = havocked_fields[a]
+            same = list(o.fields) == list(n.fields) and all(_same_val(o.fields[k], n.fields[k]) for k in o.fields if k not in skip)
+            if not same:
+                out.append(a)
             continue
         if isinstance(o, PList):
             same = len(o.items) == len(n.items) and all(_same_val(x, y) for x, y in zip(o.items, n.items))
@@ -770,8 +812,13 @@ def _havoc_heap(ex, st, spec):
             raise Unsupported(f"loop modifies {m}: cannot havoc {o!r} (use a symbolic dict/set)")
 
 
-def _frame_check(ex, st, before, spec, fname, ordinal):
-    changed = _heap_changed(before, st, _modifies_addrs(st, spec))
+def _frame_check(ex, st, before, spec, fname, ordinal, attrs=()):
+    hf = {}
+    for base, attr in attrs:
+        v = st.fr.env.get(base)
+        if isinstance(v, Ref):
+            hf.setdefault(v.addr, set()).add(attr)
+    changed = _heap_changed(before, st, _modifies_addrs(st, spec), hf)
     if changed:
         raise Unsupported(f"{fname}: loop {ordinal} mutates heap objects not listed in Loop.modifies: "
                           f"{[repr(before[a])[:60] for a in changed]}")
@@ -802,7 +849,7 @@ def run_while(ex: Exec, node: ast.While, st: State):
                 yield from ex.run_block(node.orelse, st2) if node.orelse else [(st2, ("normal", None))]
                 continue
             for st3, out in ex.run_block(node.body, st2):
-                _frame_check(ex, st3, before, spec, fname, ordinal)
+                _frame_check(ex, st3, before, spec, fname, ordinal, attrs)
                 if out[0] in ("normal", "continue"):
                     _check_invs(ex, st3, spec, "preserve", fname, ordinal)
                     if v0 is not None:
@@ -919,7 +966,7 @@ def _cut_for(ex, node, st, it):
                 yield st2, ("raise", r.exc)
                 continue
             for st3, out in ex.run_block(node.body, st2):
-                _frame_check(ex, st3, before, spec, fname, ordinal)
+                _frame_check(ex, st3, before, spec, fname, ordinal, attrs)
                 if out[0] in ("normal", "continue"):
                     _check_invs(ex, st3, spec, "preserve", fname, ordinal, {"_i": SV("int", i + 1)})
                 elif out[0] == "break":
@@ -1057,9 +1104,17 @@ def verify_function(db: ContractDB, c: Contract, case=None) -> FunctionResult:
 
         def loop_spec(n, st):
             sp = loop_map.get(id(n))
-            if sp is None:
-                return None, -1, c.qualname
-            return sp[0], sp[1], c.qualname
+            if sp is not None:
+                return sp[0], sp[1], c.qualname
+            # a loop of an inlined callee: specs come from that function's (inline) contract
+            fr = st.fr
+            cc = db.get(f"{fr.modname}:{fr.qualname}")
+            if cc is not None and cc.loops:
+                hdr = ast.unparse(n.test if isinstance(n, ast.While) else n.iter)
+                for i, spx in enumerate(cc.loops):
+                    if spx.header == hdr:
+                        return spx, i, fr.qualname
+            return None, -1, fr.qualname
 
         ex.loop_spec = loop_spec
         ex.cur_name = c.qualname
